@@ -17,7 +17,9 @@ RULE = ('batches of int64 values / integer texts / integer lists / float texts /
         'optional sign, fraction, exponent -300..300. non-trivial = a row of width >= 2, a signed row, a batch '
         'with rows of different width, or a float text with a fraction or an exponent')
 EXHAUSTIVE = {'quick': False, 'thorough': False}
-TIE = ('correspondence (power-index array, str_to_int ragged and digit-matrix variants, ints_to_strings, '
+TIE = ('translator+correspondence: translate/gen_c18.py regenerates 22 arithmetic kernels of strops.py / file_buffers.py into Gen/C18.v, '
+       'Bridge/C18.v proves them equal to the named kernels the model is written in (C18_source_tie); '
+       'correspondence (power-index array, str_to_int ragged and digit-matrix variants, ints_to_strings, '
        'int_lists_to_strings, list-column parser, exact-rational float parser evaluated in Coq on the same batches)')
 ASSUMPTIONS = ['int64 arithmetic of NumPy is arithmetic modulo 2^64 (wrap64 in the model)',
                'np.log10 on the values next to 10^15..10^18 behaves as a correctly rounded log10 of the correctly '
